@@ -20,21 +20,6 @@ From Verif Require Import Base.Prelude Base.Str Base.Float Base.GoVal
 Open Scope string_scope.
 
 (* ---------- specification vocabulary ---------- *)
-Fixpoint okey_in (k : okey) (l : list okey) : bool :=
-  match l with [] => false | x :: t => okey_eqb k x || okey_in k t end.
-Fixpoint nodup_okey (l : list okey) : bool :=
-  match l with [] => true | x :: t => negb (okey_in x t) && nodup_okey t end.
-
-Fixpoint luniq (s : schema) {struct s} : bool :=
-  match s with
-  | SList it _ _ => luniq it
-  | SMap k v _ _ => luniq k && luniq v
-  | SObject _ _ props => nodup_str (map fst props) && forallb (fun np => luniq (p_type (snd np))) props
-  | SOneOf types _ _ _ => nodup_okey (map fst types) && forallb (fun km => luniq (snd km)) types
-  | SScope objs _ => nodup_str (map fst objs) && forallb (fun io => luniq (snd io)) objs
-  | _ => true
-  end.
-
 Fixpoint occs (src : lsrc) (ns : string) (here : lpath) (s : schema) {struct s}
   : list (lpath * (lsrc * (string * string))) :=
   match s with
@@ -651,9 +636,6 @@ Proof.
 Qed.
 
 (* ---------- boolean side conditions ---------- *)
-Definition ns_names_ok (apps : list (string * objtab)) : bool :=
-  nodup_str (map fst apps) && negb (str_in "" (map fst apps)).
-
 Lemma ns_names_ok_spec apps : ns_names_ok apps = true -> NoDup (map fst apps) /\ ~ In "" (map fst apps).
 Proof.
   unfold ns_names_ok. intros H. apply andb_prop in H. destruct H as [H1 H2].
@@ -673,3 +655,71 @@ Theorem link_agrees_b : forall f s e apps lt0 lt, link_build f [] s [] = Ok lt0 
     option_map (fun x => (le_obj x, le_tab x)) (lt_get p lt)
     = option_map (fun r => (fst r, e_self (snd r))) (resolve e' id ns).
 Proof. intros f s e apps lt0 lt Hb HP Ha Hu He H. destruct (ns_names_ok_spec _ H). eapply link_agrees; eauto. Qed.
+
+(* ---------- whether an application returns does not depend on the link table ---------- *)
+Lemma fold_all_ok {B} (step : B -> ltab -> outcome ltab) : forall l,
+  (forall x, In x l -> forall b, exists b', step x b = Ok b') ->
+  forall b, exists b', fold_left (fun acc x => a0 <- acc ;; step x a0) l (Ok b) = Ok b'.
+Proof.
+  induction l as [|x t IH]; intros H b; cbn [fold_left]; [eauto|].
+  destruct (H x (or_introl eq_refl) b) as [b1 E].
+  change (a0 <- Ok b ;; step x a0) with (step x b). rewrite E. apply IH. intros y Hy. apply H. right; exact Hy.
+Qed.
+
+Lemma link_ns_ok_indep : forall f src ns here s lt lt', link_ns f src ns here s lt = Ok lt' ->
+  forall lt2, exists lt2', link_ns f src ns here s lt2 = Ok lt2'.
+Proof.
+  induction f as [|f IH]; intros src ns here s lt lt' Hl lt2; [discriminate|].
+  destruct s; cbn in Hl |- *; try (eexists; reflexivity).
+  - eapply IH; eauto.
+  - apply bind_ok_inv in Hl. destruct Hl as [lt1 [E1 E2]].
+    destruct (IH _ _ _ _ _ _ E1 lt2) as [b1 Eb1]. rewrite Eb1. cbn [bind]. eapply IH; eauto.
+  - apply (fold_all_ok (fun np a => link_ns f src ns (seg_prop here (fst np)) (p_type (snd np)) a)).
+    intros x Hx b.
+    destruct (fold_ok_elem (fun np a => link_ns f src ns (seg_prop here (fst np)) (p_type (snd np)) a) _ _ _ x Hl Hx) as [a [a' Ea]].
+    eapply IH; eauto.
+  - apply (fold_all_ok (fun km a => link_ns f src ns (seg_member here (fst km)) (snd km) a)).
+    intros x Hx b.
+    destruct (fold_ok_elem (fun km a => link_ns f src ns (seg_member here (fst km)) (snd km) a) _ _ _ x Hl Hx) as [a [a' Ea]].
+    eapply IH; eauto.
+  - destruct (String.eqb ns0 ns); [|eauto].
+    destruct src as [[objs loc]|]; [|discriminate]. destruct (alookup id objs); [eauto|discriminate].
+  - apply (fold_all_ok (fun io a => link_ns f (if String.eqb ns "" then Some (objs, LScope here) else src) ns
+                                      (seg_obj here (fst io)) (snd io) a)).
+    intros x Hx b.
+    destruct (fold_ok_elem (fun io a => link_ns f (if String.eqb ns "" then Some (objs, LScope here) else src) ns
+                                          (seg_obj here (fst io)) (snd io) a) _ _ _ x Hl Hx) as [a [a' Ea]].
+    eapply IH; eauto.
+Qed.
+
+(* C14_order_irrelevant, total form: if one order returns, every order returns, with the same table *)
+Theorem order_irrelevant_total : forall f s apps apps' lt a, Permutation apps apps' ->
+  ns_names_ok apps = true -> luniq s = true -> apply_all f s apps lt = Ok a ->
+  exists b, apply_all f s apps' lt = Ok b /\ forall p, lt_get p a = lt_get p b.
+Proof.
+  intros f s apps apps' lt a HP Hok Hu Ha.
+  assert (Hb : exists b, apply_all f s apps' lt = Ok b).
+  { unfold apply_all. apply (fold_all_ok (fun nt a0 => link_ext f (fst nt) (snd nt) s a0)).
+    intros x Hx b.
+    assert (Hx' : In x apps) by (eapply Permutation_in; [apply Permutation_sym; exact HP | exact Hx]).
+    unfold apply_all in Ha.
+    destruct (fold_ok_elem (fun nt a0 => link_ext f (fst nt) (snd nt) s a0) _ _ _ x Ha Hx') as [c [c' Ec]].
+    unfold link_ext in *. eapply link_ns_ok_indep; eauto. }
+  destruct Hb as [b Hb]. exists b. split; [exact Hb|]. eapply order_irrelevant_b; eauto.
+Qed.
+
+(* any list of applications (not necessarily all namespaces): the occurrences of an applied namespace
+   are linked into its table, everything else is untouched *)
+Theorem apply_all_spec_b : forall f s apps lt lt', apply_all f s apps lt = Ok lt' -> luniq s = true ->
+  ns_names_ok apps = true ->
+  forall p,
+    (forall srcp id ns tab, In (p, (srcp, (id, ns))) (occs None "" [] s) -> In (ns, tab) apps ->
+        exists o, alookup id tab = Some o /\ lt_get p lt' = Some (mkLE (LExt ns) tab o)) /\
+    ((forall srcp id ns, In (p, (srcp, (id, ns))) (occs None "" [] s) -> ~ In ns (map fst apps)) ->
+        lt_get p lt' = lt_get p lt).
+Proof. intros f s apps lt lt' Ha Hu H. destruct (ns_names_ok_spec _ H). eapply apply_all_spec; eauto. Qed.
+
+(* the fuelled enumeration used by ValidateReferences / the harness lists structural occurrences only *)
+Theorem refs_of_are_occs : forall f here s p id ns, In (p, (id, ns)) (refs_of f here s) ->
+  exists srcp, In (p, (srcp, (id, ns))) (occs None "" here s).
+Proof. intros f here s p id ns H. eapply refs_of_occs; eauto. Qed.
